@@ -79,6 +79,7 @@ func NewIngressConverter(options *convtypes.ConverterOptions, haproxy haproxy.Co
 		backendAnnotations: map[*hatypes.Backend]*annotations.Mapper{},
 		ingressClasses:     map[string]*ingressClassConfig{},
 	}
+	annotations.UpdateDynamicConfig(options, c.globalConfig)
 	c.readDefaultCertificate()
 	return c
 }
